@@ -196,6 +196,7 @@ func genChunks(r *PRNG, n int) []Chunk {
 		}
 		if how == "rf" {
 			c.RfChunk = r.Pick([]int{0, 1, 7, 100, 5000})
+			c.RfEOF = r.Bool()
 		}
 		out = append(out, c)
 		rem -= sz
